@@ -27,7 +27,7 @@ func (c *verifClock) Ticker(d time.Duration) *clock.Ticker {
 }
 
 // C17: K events through the real dispatcher goroutine. An event is: a clock advance (any amount up to ~18 min)
-// (0, 6 min or 11 min 1 s) followed by either a purge tick or a request for (any 32-bit chain id - 2 and 255 have watchers -, any transaction hash byte); before each request
+// (0, 6 min, 8 min 30 s - older than the purge period, younger than the window - or 11 min 1 s) followed by either a purge tick or a request for (any 32-bit chain id - 2 and 255 have watchers -, any transaction hash byte); before each request
 // the harness may fill or drain the two watcher queues (capacity 1). Ghost: time of the last forward per (chain, tx).
 func VerifC17_Dispatch() {
 	K := zzverif.Len("K", 1, 2, 3, 4, 5)
@@ -49,7 +49,7 @@ func VerifC17_Dispatch() {
 	for step := 0; step < K; step++ {
 		// clock advance before the event: none, six minutes, or just over the eleven-minute window (concrete choices: a
 		// symbolic duration would put time.Add's division by 10^9 in front of the solver)
-		adv := []time.Duration{0, 6 * time.Minute, 11*time.Minute + time.Second}[zzverif.Len("advance", 0, 1, 2)]
+		adv := []time.Duration{0, 6 * time.Minute, 11*time.Minute + time.Second, 8*time.Minute + 30*time.Second}[zzverif.Len("advance", 0, 1, 2, 3)]
 		clk.now = clk.now.Add(adv)
 		if zzverif.Len("ev", 0, 1) == 0 {
 			// purge tick
